@@ -113,13 +113,20 @@ func (s *Service) HandleMessage(ctx context.Context, conn ReadWriterContext, req
 
 // Shutdown shuts down the listener of a running service.
 func (s *Service) Shutdown() error {
-	s.running = false
 	s.mutex.Lock()
 	defer s.mutex.Unlock()
+	s.running = false
 	if s.listener == nil {
 		return nil
 	}
 	return s.listener.Close()
+}
+
+// isRunning reads the running flag under the mutex that guards its writers.
+func (s *Service) isRunning() bool {
+	s.mutex.Lock()
+	defer s.mutex.Unlock()
+	return s.running
 }
 
 func (s *Service) handleConnection(ctx context.Context, conn net.Conn, wg *sync.WaitGroup) {
@@ -264,7 +271,7 @@ func (s *Service) Listen(ctx context.Context, address string, timeout time.Durat
 	l := s.listener
 	s.mutex.Unlock()
 
-	for s.running {
+	for s.isRunning() {
 		if timeout != 0 {
 			if err := s.refreshTimeout(timeout); err != nil {
 				return err
@@ -281,7 +288,7 @@ func (s *Service) Listen(ctx context.Context, address string, timeout time.Durat
 				s.mutex.Unlock()
 				continue
 			}
-			if !s.running {
+			if !s.isRunning() {
 				return nil
 			}
 			return err
@@ -313,7 +320,7 @@ func (s *Service) DoListen(ctx context.Context, timeout time.Duration) error {
 	s.running = true
 	s.mutex.Unlock()
 
-	for s.running {
+	for s.isRunning() {
 		if timeout != 0 {
 			if err := s.refreshTimeout(timeout); err != nil {
 				return err
@@ -330,7 +337,7 @@ func (s *Service) DoListen(ctx context.Context, timeout time.Duration) error {
 				s.mutex.Unlock()
 				continue
 			}
-			if !s.running {
+			if !s.isRunning() {
 				return nil
 			}
 			return err
@@ -352,7 +359,7 @@ func (s *Service) RegisterInterface(iface dispatcher) error {
 		return fmt.Errorf("interface '%s' already registered", name)
 	}
 
-	if s.running {
+	if s.isRunning() {
 		return fmt.Errorf("service is already running")
 	}
 	s.interfaces[name] = iface
